@@ -623,5 +623,5 @@ func TestSequential(t *testing.T) { vt.Run(t, prop, "TestSequential", genSequent
 func TestConcurrent(t *testing.T) { vt.Run(t, prop, "TestConcurrent", genConcurrent, checkConcurrent) }
 
 func TestReplay(t *testing.T) {
-	vt.Replay(t, map[string]func(json.RawMessage) error{"TestSequential": vt.Decode(checkSequential), "TestConcurrent": vt.Decode(checkConcurrent)})
+	vt.Replay(t, map[string]func(json.RawMessage) error{"TestSequential": vt.Decode(checkSequential), "TestConcurrent": vt.Decode(checkConcurrent), "TestSlowWrites": vt.Decode(checkSlow)})
 }
